@@ -39,31 +39,35 @@ var targets = map[string][]string{
 	"tree.go": {"TreeMarshal.MakeTree+cond", "TreeMarshal.MakeTreeFromList+cond", "Tree.MakeTreeMarshal", "TreeMarshalCopyTree",
 		"NewTree", "NewTreeNode", "NewRoster+cond", "Roster.GenerateBigNaryTree+cond", "Roster.GenerateNaryTreeWithRoot+cond",
 		"Roster.GenerateNaryTree", "Roster.GenerateBinaryTree", "Roster.GenerateStar"},
-	"messages.go":   {"Token.ID", "Token.Clone", "Token.ChangeTreeNodeID"},
+	"messages.go": {"Token.ID", "Token.Clone", "Token.ChangeTreeNodeID"},
 	"context.go": {"Context.SendRaw", "Context.Save", "Context.Load", "Context.LoadRaw", "Context.LoadVersion", "Context.SaveVersion",
 		"Context.GetAdditionalBucket", "Context.SetValidPeers", "Context.GetValidPeers", "Context.NewPeerSetID"},
-	"server.go":    {"Server.Close", "newServer+cond"},
-	"processor.go": {"ServiceProcessor.ProcessClientRequest", "ServiceProcessor.ProcessClientStreamRequest", "callInterfaceFunc",
+	"server.go": {"Server.Close", "newServer+cond"},
+	"processor.go": {"ServiceProcessor.ProcessClientRequest", "ServiceProcessor.ProcessClientStreamRequest", "callInterfaceFunc+cond",
 		"ServiceProcessor.RegisterRESTHandler"},
-	"websocket.go":        {"wsHandler.ServeHTTP"},
-	"websocket_client.go": {"Client.Send", "Client.newConnIfNotExist", "Client.closeConn", "Client.closeSingleUseConn", "getWSHostPort+cond"},
-	"network/tcp.go": {"TCPConn.Receive", "TCPConn.receiveRawProd+cond", "TCPConn.Send", "TCPConn.sendRaw", "getListenAddress+cond"},
+	"websocket.go": {"wsHandler.ServeHTTP"},
+	"websocket_client.go": {"Client.Send", "Client.newConnIfNotExist", "Client.closeConn", "Client.closeSingleUseConn", "getWSHostPort+cond",
+		"Client.SendProtobufParallelWithDecoder"},
+	"network/tcp.go":      {"TCPConn.Receive", "TCPConn.receiveRawProd+cond", "TCPConn.Send", "TCPConn.sendRaw", "getListenAddress+cond"},
 	"network/encoding.go": {"Marshal", "Unmarshal+cond"},
 	"network/router.go": {"validPeers.set", "validPeers.get", "validPeers.isValid+cond", "Router.SetValidPeers", "Router.isPeerValid",
 		"Router.Start", "Router.Stop", "Router.Send", "Router.connect", "Router.removeConnection", "Router.handleConn",
 		"Router.registerConnection+cond", "Router.launchHandleRoutine+cond", "Router.receiveServerIdentity+cond",
 		"Router.triggerConnectionErrorHandlers"},
-	"network/tls.go":     {"makeVerifier+cond", "certMaker.get", "NewTLSListenerWithListenAddr", "NewTLSConn", "tlsConfig"},
+	"network/tls.go": {"makeVerifier+cond", "certMaker.get", "NewTLSListenerWithListenAddr", "NewTLSConn", "tlsConfig"},
 	"network/address.go": {"Address.Valid+cond", "validHostname+cond", "Address.ConnType+cond", "Address.NetworkAddress+cond",
 		"Address.Host+cond", "Address.Port+cond", "Address.IsHostname+cond", "NewAddress"},
-	"network/struct.go":  {"GlobalBind+cond", "ServerIdentity.GetID", "ServerIdentity.Equal+cond"},
-	"network/local.go":   {"LocalConn.Send", "LocalConn.Receive", "LocalManager.send"},
+	"network/struct.go": {"GlobalBind+cond", "ServerIdentity.GetID", "ServerIdentity.Equal+cond"},
+	"network/local.go":  {"LocalConn.Send", "LocalConn.Receive", "LocalManager.send"},
 	"app/config.go": {"parseServiceConfig", "parseServerServiceConfig", "parseServiceIdentity", "LoadCothority", "CothorityConfig.Save",
 		"CothorityConfig.GetServerIdentity", "ReadGroupDescToml", "Group.Toml"},
 	"simul/monitor/stats.go": {"Value.Store", "Value.Collect+cond", "AverageValue+cond", "AverageStats", "Stats.Update", "Stats.Collect",
 		"Stats.WriteValues"},
 	"simul/monitor/bucket_stats.go": {"BucketStats.Set", "BucketStats.Get", "BucketStats.Update", "bucketRule.Match+cond"},
 	"simul/monitor/monitor.go":      {"NewMonitor", "Monitor.Listen", "Monitor.handleConnection", "Monitor.update"},
+	"simul/monitor/measure.go": {"NewTimeMeasure", "NewTimeMeasureWithHost", "TimeMeasure.Record", "TimeMeasure.reset",
+		"NewCounterIOMeasure", "NewCounterIOMeasureWithHost", "CounterIOMeasure.Record", "RecordSingleMeasureWithHost",
+		"newSingleMeasureWithHost", "singleMeasure.Record"},
 }
 
 // calls that carry no information for the shapes
